@@ -505,7 +505,6 @@ def doConnectionLost (p : Nat) (reason : Err) : Step :=
 
 /-- MQTTBaseProtocol.connectionLost -/
 def connectionLost (p : Nat) (reason : Err) : Step :=
-  setProto p (fun pr => { pr with lost := true }) ;;
   Step.read fun w =>
     (match (w.proto p).pingTimer with
      | none => Step.ok
@@ -514,7 +513,7 @@ def connectionLost (p : Nat) (reason : Err) : Step :=
      | none => Step.ok
      | some tid => cancelTimer tid ;; setProto p (fun pr => { pr with pingAlarm := none })) ;;
     doConnectionLost p reason ;;
-    setProto p (fun pr => { pr with state := .idle }) ;;
+    setProto p (fun pr => { pr with state := .idle, lost := true }) ;;     -- `lost` is a ghost field: the loss has been reported
     Step.read fun w =>
       if (w.proto p).onDisc then callLater (1 / 10 : Rat) (.onDisc p reason) fun _ => Step.ok else Step.ok
 
